@@ -54,7 +54,7 @@ type runState struct {
 	h        *History
 	lines    []string
 	curN     int
-	fgGoid   int64
+	fgOf     map[int64]int // goroutine -> exchange it performs in the foreground
 	bgOf     map[int64]int // goroutine -> exchange whose background work it performs
 	calls    map[int]int   // exchange -> number of origin calls so far
 	storeIdx map[string]int
@@ -75,8 +75,8 @@ func (rs *runState) streamOf(ctxN int, haveCtx bool) (int, string) {
 	g := goid()
 	rs.mu.Lock()
 	defer rs.mu.Unlock()
-	if g == rs.fgGoid {
-		return rs.curN, "fg"
+	if n, ok := rs.fgOf[g]; ok {
+		return n, "fg"
 	}
 	if n, ok := rs.bgOf[g]; ok {
 		return n, "bg"
@@ -502,7 +502,7 @@ func urlGlue(u *url.URL) string {
 
 func runHistory(t *testing.T, h *History) (lines []string) {
 	registerDriver()
-	rs := &runState{h: h, bgOf: map[int64]int{}, calls: map[int]int{}, storeIdx: map[string]int{},
+	rs := &runState{h: h, fgOf: map[int64]int{}, bgOf: map[int64]int{}, calls: map[int]int{}, storeIdx: map[string]int{},
 		dates: map[string]struct{}{}, curN: -1}
 	regMu.Lock()
 	regSeq++
@@ -597,7 +597,99 @@ func runHistory(t *testing.T, h *History) (lines []string) {
 		tr := httpcache.NewTransport("verifrec://?id="+id, opts...)
 		start := time.Now()
 		rs.emit("O\tT0\t%d", start.UnixNano())
-		var cancels []context.CancelFunc
+		cancels := make([]context.CancelFunc, len(h.Ops))
+		for i := range cancels {
+			cancels[i] = func() {}
+		}
+		type owned struct {
+			n    int
+			resp *http.Response
+			hdrs string
+		}
+		var ownMu sync.Mutex
+		var returned []owned
+		raceMode := os.Getenv("VERIF_RACE") == "1"
+		doExchange := func(n int, op Op) {
+			ctx, cancel := context.WithCancel(context.WithValue(context.Background(), exKey{}, n))
+			cancels[n] = cancel
+			if op.Cancel == "before" {
+				cancel()
+			}
+			req, err := http.NewRequestWithContext(ctx, op.Method, op.URL, nil)
+			if err != nil {
+				rs.emit("O\tRES\t%d\t0\t0\tbadreq\t0\t-\t-\t-", n)
+				return
+			}
+			for _, p := range op.Hdr {
+				req.Header.Add(p[0], p[1])
+			}
+			before := snap(req)
+			g := goid()
+			rs.mu.Lock()
+			rs.curN = n
+			rs.fgOf[g] = n
+			rs.mu.Unlock()
+			t0 := time.Now().UnixNano()
+			var resp *http.Response
+			var rerr error
+			var pan any
+			func() {
+				defer func() { pan = recover() }()
+				resp, rerr = tr.RoundTrip(req)
+			}()
+			t1 := time.Now().UnixNano()
+			rs.mu.Lock()
+			delete(rs.fgOf, g)
+			rs.mu.Unlock()
+			switch {
+			case pan != nil:
+				rs.emit("O\tRES\t%d\t%d\t%d\tpanic\t0\t-\t%s\t-", n, t0, t1, hx(fmt.Sprint(pan)))
+			case rerr != nil && resp != nil:
+				rs.emit("O\tRES\t%d\t%d\t%d\tboth\t0\t-\t%s\t-", n, t0, t1, hx(rerr.Error()))
+			case rerr != nil:
+				cls := "other"
+				if errors.Is(rerr, errOrigin) {
+					cls = "origin"
+				} else if errors.Is(rerr, context.Canceled) || errors.Is(rerr, context.DeadlineExceeded) {
+					cls = "ctx"
+				}
+				rs.emit("O\tRES\t%d\t%d\t%d\terr\t0\t-\t%s\t-", n, t0, t1, cls)
+			case resp == nil:
+				rs.emit("O\tRES\t%d\t%d\t%d\tneither\t0\t-\t-\t-", n, t0, t1)
+			default:
+				hdrs := encHeader(resp.Header)
+				rs.noteDates(resp.Header)
+				ownMu.Lock()
+				returned = append(returned, owned{n, resp, hdrs})
+				ownMu.Unlock()
+				if raceMode {
+					// an adversarial caller: keeps writing its response's header map while any
+					// background work of the cache runs; the race detector reports a cache that still touches it
+					go func() {
+						for i := 0; i < 20; i++ {
+							resp.Header.Set("X-Caller-Owned", strconv.Itoa(i))
+							<-time.After(100 * time.Millisecond)
+						}
+					}()
+				}
+				be := "ok"
+				var body []byte
+				if resp.Body != nil {
+					var berr error
+					body, berr = io.ReadAll(resp.Body)
+					if berr != nil {
+						be = "bodyerr"
+					}
+					resp.Body.Close()
+				}
+				rs.emit("O\tRES\t%d\t%d\t%d\tresp\t%d\t%s\t%s\t%s", n, t0, t1, resp.StatusCode, hdrs, hx(bodyRepr(string(body))), be)
+			}
+			if after := snap(req); after != before {
+				rs.emit("O\tREQCMP\t%d\tchanged", n)
+			} else {
+				rs.emit("O\tREQCMP\t%d\tsame", n)
+			}
+		}
 		for n, op := range h.Ops {
 			if d := time.Duration(op.AtNs) - time.Since(start); d > 0 {
 				<-time.After(d)
@@ -612,76 +704,36 @@ func runHistory(t *testing.T, h *History) (lines []string) {
 					}
 				}
 			case "req":
-				ctx, cancel := context.WithCancel(context.WithValue(context.Background(), exKey{}, n))
-				cancels = append(cancels, cancel)
-				if op.Cancel == "before" {
-					cancel()
+				// a concurrent group: consecutive requests issued at the same instant
+				if h.Concurrent && n > 0 && h.Ops[n-1].Op == "req" && h.Ops[n-1].AtNs == op.AtNs {
+					continue // already issued with its group
 				}
-				req, err := http.NewRequestWithContext(ctx, op.Method, op.URL, nil)
-				if err != nil {
-					rs.emit("O\tRES\t%d\t0\t0\tbadreq\t0\t-\t-\t-", n)
-					continue
-				}
-				for _, p := range op.Hdr {
-					req.Header.Add(p[0], p[1])
-				}
-				before := snap(req)
-				rs.mu.Lock()
-				rs.curN = n
-				rs.fgGoid = goid()
-				rs.mu.Unlock()
-				t0 := time.Now().UnixNano()
-				var resp *http.Response
-				var rerr error
-				var pan any
-				func() {
-					defer func() { pan = recover() }()
-					resp, rerr = tr.RoundTrip(req)
-				}()
-				t1 := time.Now().UnixNano()
-				switch {
-				case pan != nil:
-					rs.emit("O\tRES\t%d\t%d\t%d\tpanic\t0\t-\t%s\t-", n, t0, t1, hx(fmt.Sprint(pan)))
-				case rerr != nil && resp != nil:
-					rs.emit("O\tRES\t%d\t%d\t%d\tboth\t0\t-\t%s\t-", n, t0, t1, hx(rerr.Error()))
-				case rerr != nil:
-					cls := "other"
-					if errors.Is(rerr, errOrigin) {
-						cls = "origin"
-					} else if errors.Is(rerr, context.Canceled) || errors.Is(rerr, context.DeadlineExceeded) {
-						cls = "ctx"
+				group := []int{n}
+				if h.Concurrent {
+					for m := n + 1; m < len(h.Ops) && h.Ops[m].Op == "req" && h.Ops[m].AtNs == op.AtNs; m++ {
+						group = append(group, m)
 					}
-					rs.emit("O\tRES\t%d\t%d\t%d\terr\t0\t-\t%s\t-", n, t0, t1, cls)
-				case resp == nil:
-					rs.emit("O\tRES\t%d\t%d\t%d\tneither\t0\t-\t-\t-", n, t0, t1)
-				default:
-					hdrs := encHeader(resp.Header)
-					rs.noteDates(resp.Header)
-					be := "ok"
-					var body []byte
-					if resp.Body != nil {
-						var berr error
-						body, berr = io.ReadAll(resp.Body)
-						if berr != nil {
-							be = "bodyerr"
-						}
-						resp.Body.Close()
-					}
-					rs.emit("O\tRES\t%d\t%d\t%d\tresp\t%d\t%s\t%s\t%s", n, t0, t1, resp.StatusCode, hdrs, hx(bodyRepr(string(body))), be)
 				}
-				if after := snap(req); after != before {
-					rs.emit("O\tREQCMP\t%d\tchanged", n)
+				if len(group) == 1 {
+					doExchange(n, op)
 				} else {
-					rs.emit("O\tREQCMP\t%d\tsame", n)
+					var wg sync.WaitGroup
+					for _, m := range group {
+						wg.Add(1)
+						go func(m int) {
+							defer wg.Done()
+							doExchange(m, h.Ops[m])
+						}(m)
+					}
+					wg.Wait()
 				}
-				rs.mu.Lock()
-				rs.fgGoid = -1
-				rs.mu.Unlock()
 				synctest.Wait()
-				if op.Cancel == "after" {
-					cancel()
-					synctest.Wait()
+				for _, m := range group {
+					if h.Ops[m].Cancel == "after" {
+						cancels[m]()
+					}
 				}
+				synctest.Wait()
 			}
 		}
 		// quiescence: let every background task run into its timeout, then look for leftovers
@@ -691,6 +743,14 @@ func runHistory(t *testing.T, h *History) (lines []string) {
 		leak := rs.pending
 		rs.mu.Unlock()
 		rs.emit("O\tLEAK\t%d", leak)
+		// once returned, a response belongs to the caller: its header map must be what it was at return
+		if !raceMode {
+			for _, o := range returned {
+				if now := encHeader(o.resp.Header); now != o.hdrs {
+					rs.emit("O\tOWN\t%d\tchanged\t%s", o.n, now)
+				}
+			}
+		}
 		for _, c := range cancels {
 			c()
 		}
